@@ -29,7 +29,8 @@ RULE = (
     "iterations; it= default / all / sub-list with duplicates / permutation; "
     "vars= default / [] / sub-list (may name 'it','t', duplicates); rl= "
     "default,0,1,2,10; two datapath directories with/without trailing slash "
-    "and the ET-style 'simulation' layout with restart. read: it= default or "
+    "and the ET-style 'simulation' layout with restart (reads also with a "
+    "'simpath' lacking the trailing separator). read: it= default or "
     "any list (missing iterations, duplicates, unsorted), vars= default / [] "
     "/ lists incl. 't', 'it', a never-saved name; rl; with/without slash; "
     "through aurel.read_data, reading.read_data, reading.read_aurel_data. "
@@ -131,11 +132,13 @@ def mask_none(spec, j):
     return spec > 0 and bool((spec >> j) & 1)
 
 
-def build_data(op, counter):
-    """data dict of a save op; pure function of (op, counter)."""
+def build_data(op, counter, it_base=0):
+    """data dict of a save op; pure function of (op, counter). The iteration
+    numbers handed to aurel are it_base + the small numbers of the op."""
     its = op["data_it"]
     rl = op["rl"] if op["rl"] is not None else 0
-    data = {"it": np.array(its) if op["it_array"] else list(its)}
+    real = [it_base + i for i in its]
+    data = {"it": np.array(real) if op["it_array"] else list(real)}
     t = op["t"]
     if t == -1:
         data["t"] = None
@@ -304,10 +307,14 @@ def layout_param(root, lay, slash, restart):
 
 
 class Hist:
-    def __init__(self, impl, note, focus):
+    def __init__(self, impl, note, focus, it_base=0):
         self.impl = impl
         self.note = note
         self.focus = focus
+        # late output of a long run: large, closely spaced iteration numbers
+        self.base = int(it_base)
+        if self.base:
+            note.cls("iterations-offset-by=%d" % self.base)
         self.model = {}       # (dirkey, it, var, rl) -> meta dict
         self.tainted = set()
         self.saves = {}       # counter -> record
@@ -315,6 +322,13 @@ class Hist:
         self.nontrivial = False
         self.written = []     # (lay, restart, rl) in order of first write
         self.read_after_save_special = False
+
+    def real_it(self, op):
+        """the it= argument handed to aurel (None = omitted: the library
+        default [0], only meaningful without an iteration offset)"""
+        if op["it"] is None:
+            return [self.base] if self.base else None
+        return [self.base + i for i in op["it"]]
 
     # -- save ---------------------------------------------------------------
     def save(self, op):
@@ -324,10 +338,10 @@ class Hist:
         param, dk = layout_param(self.impl.root, op["layout"], op["slash"],
                                  op.get("restart"))
         param0 = dict(param)
-        data = build_data(op, c)
-        data0 = build_data(op, c)
+        data = build_data(op, c, self.base)
+        data0 = build_data(op, c, self.base)
         kw = {}
-        it_arg = None if op["it"] is None else list(op["it"])
+        it_arg = self.real_it(op)
         vars_arg = None if op["vars_arg"] is None else list(op["vars_arg"])
         if it_arg is not None:
             kw["it"] = it_arg
@@ -404,7 +418,7 @@ class Hist:
         if vars_arg is not None and vars_arg != list(op["vars_arg"]):
             note.fail("save:mutates-vars",
                       dict(before=op["vars_arg"], after=vars_arg))
-        if it_arg is not None and it_arg != list(op["it"]):
+        if it_arg is not None and it_arg != self.real_it(op):
             note.fail("save:mutates-it", dict(before=op["it"], after=it_arg))
         if not same(param, param0):
             note.fail("save:mutates-param", dict(before=param0, after=param))
@@ -445,7 +459,7 @@ class Hist:
             param.update(param_override)
         param0 = dict(param)
         kw = {}
-        it_arg = None if op["it"] is None else list(op["it"])
+        it_arg = self.real_it(op)
         vars_arg = None if op["vars_arg"] is None else list(op["vars_arg"])
         if it_arg is not None:
             kw["it"] = it_arg
@@ -467,7 +481,7 @@ class Hist:
         if vars_arg is not None and vars_arg != list(op["vars_arg"]):
             out.append(("read:mutates-vars",
                         dict(before=op["vars_arg"], after=vars_arg)))
-        if it_arg is not None and it_arg != list(op["it"]):
+        if it_arg is not None and it_arg != self.real_it(op):
             out.append(("read:mutates-it",
                         dict(before=op["it"], after=it_arg)))
         if not same(param, param0):
@@ -551,7 +565,8 @@ class Hist:
             out.append(("read:no-it-column", dict(keys=list(r))))
         else:
             try:
-                got = [None if x is None else int(x) for x in r["it"]]
+                got = [None if x is None else int(x) - self.base
+                       for x in r["it"]]
             except Exception:  # noqa: BLE001
                 got = ["?"]
             if got != req:
@@ -668,7 +683,7 @@ def run_history(case, note, impl=None, focus=None):
     own = impl is None
     impl = impl or RealImpl()
     try:
-        h = Hist(impl, note, focus)
+        h = Hist(impl, note, focus, case.get("it_base", 0))
         for op in case["ops"]:
             if op["op"] == "save":
                 h.save(op)
@@ -793,7 +808,8 @@ def history(name, max_ops):
     mix = ([save_op(m), read_op(m), read_op(m)] if name == "args_paths"
            else [save_op(m), save_op(m), read_op(m)])
     ops = st.lists(st.one_of(*mix), min_size=2, max_size=max_ops)
-    return ops.map(lambda o: dict(focus=FOCUS[name], ops=o))
+    return st.tuples(ops, st.sampled_from([0, 0, 0, 3000000, 10 ** 9])).map(
+        lambda o: dict(focus=FOCUS[name], ops=o[0], it_base=o[1]))
 
 
 # ---------------------------------------------------------------------------
